@@ -208,7 +208,15 @@ pub fn run(cfg: &Cfg, rep: &mut Report) {
             0 => rng.u32(),
             _ => ((rng.below(20) as u32) << 16) | rng.below(0x10000) as u32,
         };
-        let (words, _mask, _starts) = genmod::encode_module(genmod::random_version(rng), generator, gen.next_id, &pre, None);
+        // the bound word is whatever the producer wrote: usually above every id, sometimes stale (too small, zero)
+        // or far too large; the header comment shows the recorded word, and nothing else may depend on it
+        let bound = match rng.below(6) {
+            0 => rng.below(gen.next_id.max(1) as usize) as u32,
+            1 => *rng.pick(&[0u32, 1, 2, u32::MAX]),
+            2 => rng.u32(),
+            _ => gen.next_id,
+        };
+        let (words, _mask, _starts) = genmod::encode_module(genmod::random_version(rng), generator, bound, &pre, None);
         let rp = || crate::util::replay_ref(cfg, "loader-modules", idx);
         match catch(|| dr::load_words(&words)) {
             Ok(Ok(mut m)) => {
